@@ -959,6 +959,7 @@ def check_codec(ctx, falcon, model):
     sys.setrecursionlimit(20000)     # the harness's own recursive wire encoders on deep documents
     try:
         _check_codec(ctx, falcon, model)
+        check_form_parse(ctx, falcon, model)
     finally:
         sys.setrecursionlimit(old)
 
@@ -1275,6 +1276,116 @@ def _check_codec(ctx, falcon, model):
             else:
                 ctx.violation('correspondence-broken', dict(detail, broken='C12.form_print_corr'), found_input=False,
                               key='codec-form')
+
+
+def wmapping(w):
+    """wire (Extract.v v_mapping) -> list of (key, str | list of str), order kept."""
+    return [(common.wstr(k), common.wstr(v[1]) if v[0] == 0 else [common.wstr(x) for x in v[1]]) for k, v in w]
+
+
+def check_form_parse(ctx, falcon, model):
+    """coq/C12/Form.v (decode, parse_qs, form_deserialize_body) against falcon.util.uri.decode,
+    parse_query_string(csv=False) and the real URLEncodedFormHandler.deserialize."""
+    import itertools
+    from falcon.util import uri
+    from falcon.media import URLEncodedFormHandler
+    rng = ctx.rng
+    quick = ctx.tier == 'quick'
+    n = 1500 if quick else 15000
+    fh = URLEncodedFormHandler()
+    # ---- uri.decode
+    frag = ['a', 'Z', '0', '-', '.', '_', '~', '+', '%', '%20', '%2B', '%2b', '%25', '%41', '%4', '%4g', '%g1', '%C3%A9', '%c3%a9',
+            '%E2%82%AC', '%F0%9F%98%80', '%C3', '%A9', '%FF', '%ED%A0%80', '%00', '%7F', '&', '=', ',', ' ', 'é', '€', '\U0001f600',
+            '%%', '%+1', '%2%42']
+    dstrs = [''.join(rng.choice(frag) for _ in range(rng.randint(0, 9))) for _ in range(n)]
+    for ln in range(0, 6 if quick else 7):
+        dstrs += [''.join(t) for t in itertools.product('%41g+a', repeat=ln)]
+    outs = run_many(model, [[18, x] for x in dstrs])
+    for x, o in zip(dstrs, outs):
+        try:
+            exp = uri.decode(x)
+        except UnicodeEncodeError:
+            exp = None
+        ctx.note_case(('uri-decode', x), '%' in x or '+' in x)
+        ctx.count('form-uri-decode')
+        got = common.wstr(o[0]) if o else None
+        if got is not None and got != exp or got is None and exp is not None and '�' not in exp:
+            ctx.violation('correspondence-broken', {'broken': 'C12.uri_decode_corr', 'input': x, 'uri.decode': repr(exp), 'model': repr(got)},
+                          found_input=False, key='form-decode')
+    # ---- parse_query_string(csv=False)
+    qfrag = ['a', 'b', 'k', '=', '=', '&', '&', '+', '%20', '%26', '%3D', '%2B', '%25', '%', '%4', '%C3%A9', '%FF', ',', 'a,b', '1',
+             'a=1', 'a=', '=1', 'b=2&b=3', '%61']
+    qss = [''.join(rng.choice(qfrag) for _ in range(rng.randint(0, 10))) for _ in range(n)]
+    for ln in range(0, 6 if quick else 7):
+        qss += [''.join(t) for t in itertools.product('a=&%+4', repeat=ln)]
+    images = []
+    fstrs = ['', 'a', 'A-Z_.~', 'a b', 'a+b', 'a&b=c', '%41', ',', 'é', '€', '\U0001f600', '\x00', '\x7f', '/', '=', '&', '%', '+']
+    for _ in range(n):
+        m = {}
+        for _k in range(rng.randint(0, 4)):
+            k = rng.choice(fstrs) if rng.random() < 0.7 else gen_str(rng)
+            def val():
+                return rng.choice(fstrs) if rng.random() < 0.7 else gen_str(rng)
+            m[k] = val() if rng.random() < 0.6 else [val() for _ in range(rng.choice([0, 1, 2, 3]))]
+        body = fh.serialize(m, 'application/x-www-form-urlencoded')
+        images.append((m, body))
+        qss.append(body.decode('ascii'))
+        qss.append(mutate_text(body.decode('ascii'), rng))
+    cases = [[19, kb, q] for q in qss for kb in (True, False)]
+    outs = run_many(model, cases)
+    for c, o in zip(cases, outs):
+        _, kb, q = c
+        try:
+            exp = list(uri.parse_query_string(q, keep_blank=kb, csv=False).items())
+        except UnicodeEncodeError:
+            exp = None
+        ctx.note_case(('parse-qs', kb, q), '&' in q and '=' in q)
+        ctx.count('form-parse-qs')
+        got = wmapping(o[0]) if o else None
+        repl = exp is None or any('�' in k or '�' in (v if isinstance(v, str) else ''.join(v)) for k, v in exp)
+        if got is not None and got != exp or got is None and not repl:
+            ctx.violation('correspondence-broken', {'broken': 'C12.parse_qs_corr', 'query_string': q, 'keep_blank': kb,
+                                                    'parse_query_string': repr(exp)[:400], 'model': repr(got)[:400]},
+                          found_input=False, key='form-parse-qs')
+    # ---- the real handler's deserialize on bytes
+    bodies = [('image', b) for _, b in images]
+    for _, b in images:
+        if b and rng.random() < 0.5:
+            i = rng.randrange(len(b))
+            bodies.append(('byte-replaced', b[:i] + bytes([rng.choice([0x80, 0xe9, 0xff, 0x26, 0x3d, 0x25, 0x2b, 0x41])]) + b[i + 1:]))
+    bodies += [('empty', b''), ('amp', b'&&'), ('eq', b'='), ('nonascii', b'a=\xc3\xa9'), ('plain', b'a=1&b=2&a=3')]
+    outs = run_many(model, [[20, True, b] for _, b in bodies])
+    for (label, b), o in zip(bodies, outs):
+        try:
+            r = ('ok', list(fh.deserialize(io.BytesIO(b), 'application/x-www-form-urlencoded', len(b)).items()))
+        except falcon.MediaMalformedError:
+            r = ('mal',)
+        except BaseException as e:   # noqa
+            r = ('other', repr(e)[:100])
+        ctx.note_case(('form-deser', b), label != 'image')
+        ctx.count('form-deserialize-' + label + '-' + r[0])
+        detail = {'label': label, 'body': repr(b[:1000]), 'handler.deserialize': repr(r)[:400], 'model(0=value,2=malformed,9=not modelled)': repr(o)[:400]}
+        if r[0] == 'other':
+            ctx.violation('form-undecodable-not-400', detail, key='form-deser-500')
+        elif o[0] == 9:
+            if not (r[0] == 'ok' and '�' in repr(r[1]) or '\\ufffd' in repr(r)):
+                ctx.violation('correspondence-broken', dict(detail, broken='C12.form_deserialize_body_corr (model has no answer)'),
+                              found_input=False, key='form-deser-nm')
+        elif (o[0] == 2) != (r[0] == 'mal') or (o[0] == 0 and wmapping(o[1]) != r[1]):
+            ctx.violation('correspondence-broken', dict(detail, broken='C12.form_deserialize_body_corr'), found_input=False,
+                          key='form-deser')
+    # the proved round trip, instance by instance on the extracted model and on the real handler
+    rt = [(m, b) for m, b in images if form_expected(m) == m]
+    outs = run_many(model, [[20, True, b] for _, b in rt])
+    for (m, b), o in zip(rt, outs):
+        ctx.note_case(('form-rt', b), len(m) > 0)
+        ctx.count('form-roundtrip-canonical')
+        back = fh.deserialize(io.BytesIO(b), 'application/x-www-form-urlencoded', len(b))
+        if back != m:
+            ctx.violation('form-roundtrip', {'mapping': repr(m)[:400], 'body': repr(b[:400]), 'got': repr(back)[:400]}, key='form-rt2')
+        if o[0] != 0 or wmapping(o[1]) != list(m.items()):
+            ctx.violation('correspondence-broken', {'broken': 'C12.form_roundtrip instance fails on the extracted model',
+                                                    'mapping': repr(m)[:400], 'model': repr(o)[:400]}, found_input=False, key='form-rt-model')
 
 
 def form_expected(m):
